@@ -252,7 +252,8 @@ def scanDateTime (cs : List Char) : Option (Str × List Char) := do
           | some (s, r') => (s, r')
           | none => ([], r)
         let (o, r) := scanOffset env r
-        pure (d ++ t :: hm ++ s ++ o, r)
+        -- the token action upper-cases the text (`T` separator, `Z` suffix)
+        pure ((d ++ t :: hm ++ s ++ o).map asciiUpper, r)
       else none
   | [] => none
 
